@@ -4,6 +4,7 @@ package main
 
 import (
 	"fmt"
+	"os"
 	"go/types"
 
 	"golang.org/x/tools/go/ssa"
@@ -122,6 +123,9 @@ func (t *Thread) body() {
 		// nobody runnable: wake main so it can detect the deadlock / finish
 		next = ex.threads[0]
 	}
+	if schedDebug {
+		fmt.Fprintf(os.Stderr, "SCHED t%d exits -> t%d\n", t.id, next.id)
+	}
 	ex.cur = next
 	next.wake <- struct{}{}
 }
@@ -129,7 +133,13 @@ func (t *Thread) body() {
 func (t *Thread) protect(f func()) (sig interface{}) {
 	defer func() {
 		if r := recover(); r != nil {
-			sig = r
+			switch r.(type) {
+			case *pathAbort, *unsupportedErr, *unwindFail, *goPanic, *uncaughtPanic, *deadlockErr:
+				sig = r
+			default:
+				// a Go runtime error inside the engine: keep the stack of this goroutine
+				sig = unsupported(fmt.Sprintf("engine panic in goroutine: %v\n%s", r, shortStack()))
+			}
 		}
 	}()
 	f()
@@ -147,9 +157,15 @@ func (ex *Exec) switchTo(next *Thread) {
 	if next == cur {
 		return
 	}
+	if schedDebug {
+		fmt.Fprintf(os.Stderr, "SCHED switch t%d -> t%d (t%d waits for %q)\n", cur.id, next.id, cur.id, cur.what)
+	}
 	ex.cur = next
 	next.wake <- struct{}{}
 	<-cur.wake
+	if schedDebug {
+		fmt.Fprintf(os.Stderr, "SCHED t%d resumed (ex.cur=t%d)\n", cur.id, ex.cur.id)
+	}
 	if cur.isMain && ex.pending != nil {
 		p := ex.pending
 		ex.pending = nil
@@ -234,13 +250,26 @@ func (ex *Exec) addEnvEvent(e *envEvent) {
 
 type deadlockErr struct{ what string }
 
+var schedDebug = os.Getenv("GOSYM_DEBUG") == "3"
+
 // blockUntil blocks the current thread until ready() holds.
 func (ex *Exec) blockUntil(ready func() bool, what string, site ssa.Instruction) {
 	cur := ex.cur
+	// nested use (an environment event firing interpreted code on this goroutine) must not
+	// clobber the outer wait's readiness predicate
+	prevReady, prevWhat := cur.ready, cur.what
+	defer func() { cur.ready, cur.what = prevReady, prevWhat }()
 	for !ready() {
 		cur.ready = ready
 		cur.what = what
 		next := ex.pickNext(cur, true)
+		if schedDebug {
+			nid := -1
+			if next != nil {
+				nid = next.id
+			}
+			fmt.Fprintf(os.Stderr, "SCHED t%d blocks on %q at %s; next=t%d\n", cur.id, what, ex.site(site), nid)
+		}
 		if next == nil {
 			if ready() {
 				break
@@ -260,8 +289,6 @@ func (ex *Exec) blockUntil(ready func() bool, what string, site ssa.Instruction)
 		ex.switches++
 		ex.switchTo(next)
 	}
-	cur.ready = nil
-	cur.what = ""
 }
 
 // syncPoint is a potential preemption point (only when schedule exploration is on).
@@ -514,6 +541,17 @@ func (ex *Exec) selectOp(fr *Frame, in *ssa.Select) Value {
 			}
 		}
 		rd = readyIdx()
+		if len(rd) == 0 {
+			var d string
+			for _, s := range states {
+				if s.c != nil {
+					d += fmt.Sprintf(" chan#%d(len=%d cap=%d closed=%v timer=%v send=%v)", s.c.id, len(s.c.buf), s.c.cap, s.c.closed, s.c.timer, s.send)
+				} else {
+					d += " nil-chan"
+				}
+			}
+			panic(unsupported("select resumed with no ready case:" + d + " at " + ex.site(in)))
+		}
 	}
 	k := 0
 	if len(rd) > 1 {
